@@ -113,7 +113,8 @@ def build_runner():
     if os.path.exists(stamp) and os.path.exists(runner) and open(stamp).read() == h:
         return runner
     ok, out = coq_make(["theories/Model/Build.vo", "theories/Model/Stream.vo", "theories/Model/Server.vo",
-                        "theories/Model/Client.vo", "theories/Model/Tls.vo"]
+                        "theories/Model/Client.vo", "theories/Model/ClientMulti.vo", "theories/Model/ClientObj.vo", "theories/Model/Listener.vo",
+                        "theories/Model/Tls.vo"]
                        if os.path.exists(os.path.join(COQ, "theories/Model/Tls.v")) else ["theories/Model/Build.vo"])
     if not ok:
         raise MachineryError("model does not compile:\n" + out[-3000:])
